@@ -353,8 +353,57 @@ def crystals_case(item, ctx=None, only=None):
   return msgs
 
 
+_PROC_SCRIPT = r"""
+import json, sys
+sys.path.insert(0, %r)
+from vt.core import bind
+tf, tfl = bind.bind()
+import numpy as np
+from tensorflow_lattice.python import premade_lib
+from vt.checks import c17
+out = {}
+for nf, rank, nl in ((4, 2, 4), (5, 3, 3), (6, 2, 5)):
+  for seed in (1, 2):
+    mc = c17._ens_config(nf, rank, nl, seed, "random")
+    premade_lib.set_random_lattice_ensemble(mc)
+    out["random/%%d/%%d/%%d/%%d" %% (nf, rank, nl, seed)] = [list(map(str, l)) for l in mc.lattices]
+for inc, unc, rank, nl in (([2, 1], [1, 2], 2, 4), ([1], [3], 3, 3)):
+  item = dict(inc=inc, unc=unc, rank=rank, nl=nl, avoid=True)
+  st = c17._rtl_layer(item, 3)._get_rtl_structure(c17._rtl_shape(item))
+  out["rtl/%%s/%%s/%%d/%%d" %% (inc, unc, rank, nl)] = repr(st)
+print("RESULT" + json.dumps(out, sort_keys=True))
+"""
+
+
+def process_case(item, ctx=None):
+  """Seed-derived structures must not depend on the interpreter's string-hash seed: the same
+  configurations are built in separate processes with different PYTHONHASHSEED values."""
+  import json, os, subprocess, sys
+  from vt.core import ctx as ctxmod
+  outs = []
+  for hs in item["hashseeds"]:
+    env = dict(os.environ, PYTHONHASHSEED=str(hs))
+    r = subprocess.run([sys.executable, "-W", "ignore", "-c", _PROC_SCRIPT % ctxmod.VERIF_ROOT], env=env,
+                       stdout=subprocess.PIPE, stderr=subprocess.DEVNULL, timeout=900)
+    line = [l for l in r.stdout.decode().splitlines() if l.startswith("RESULT")]
+    if not line:
+      return "structure-building subprocess (PYTHONHASHSEED=%s) produced no result (exit %s)" % (hs, r.returncode)
+    outs.append(json.loads(line[0][6:]))
+  msgs = []
+  for k in outs[0]:
+    vals = [o[k] for o in outs]
+    if any(v != vals[0] for v in vals):
+      msgs.append("%s differs between processes with PYTHONHASHSEED %s: %s" % (k, item["hashseeds"], vals))
+  if ctx is not None:
+    ctx.add(evaluations=len(outs[0]) * len(outs), nontrivial=len(outs[0]) * len(outs), traces=len(outs))
+    ctx.tab("process_determinism", "structures_compared", len(outs[0]))
+  return "; ".join(msgs[:2]) or None
+
+
 def replay(case):
   k = case["kind"]
+  if k == "process":
+    return process_case(case)
   if k == "rtl":
     return rtl_case(case)
   if k == "random":
@@ -378,7 +427,8 @@ def work(ctx, item):
           "has-flat-lattice" if any(t in ("zero", "const") for t in tag) else "regular")
       ctx.violation(dict(kind=k, what=what, prefit=deg), dict(item, only=tag), msg)
     return
-  msg = rtl_case(item, ctx) if k == "rtl" else random_case(item, ctx)
+  msg = (process_case(item, ctx) if k == "process" else
+         rtl_case(item, ctx) if k == "rtl" else random_case(item, ctx))
   if msg:
     ctx.violation(dict(kind=k, what=("usage" if "usage" in msg or "unused" in msg else
                                      "monotone-slot" if "wired" in msg else
@@ -388,6 +438,7 @@ def work(ctx, item):
 
 def run(ctx):
   items = rtl_items(ctx.tier, ctx.seed) + random_items(ctx.tier, ctx.seed) + crystals_items(ctx.tier, ctx.seed)
+  items.append(dict(kind="process", hashseeds=[1, 2, 77] if ctx.quick else [1, 2, 3, 77, 4242]))
   items = alpha.rotate(items, ctx.seed)
   ctx.rule = (
       "RTL: every multiset of increasing/unconstrained input groups (group sizes 1-3, <=6 inputs) x "
@@ -396,7 +447,8 @@ def run(ctx):
       "output labels and the monotone-function check on a grid; random ensemble: features 2-6 x "
       "rank 2-4 x lattices 2-4 x seeds; Crystals: real prefitting config/model, ALL combinations of "
       "prefitting lattice kernels over a pattern alphabet (zero, constant, additive, xor, and, sum) "
-      "through set_crystals_lattice_ensemble. Non-trivial = structure with both monotone and free "
+      "through set_crystals_lattice_ensemble; the same random-ensemble / RTL structures built in separate "
+      "processes with different PYTHONHASHSEED values. Non-trivial = structure with both monotone and free "
       "inputs (RTL) / non-degenerate prefitting kernels (Crystals).")
   ctx.assumptions += ["seed windows offset by VERIF_SEED"]
   pool.pmap(ctx, "vt.checks.c17", "work", items, chunk=2)
